@@ -122,7 +122,7 @@ def main(argv=None):
                           'weight': sh.n, 'sample': 0})
     for sh in p13.shapes(chk.tier):
         tasks.append({'module': M, 'fn': 'shared_task', 'shared_module': 'props.c13', 'shared_fn': 'vc_task', 'name': f'_begin_betting/n{sh.n}h{sh.H}',
-                      'shape': sh.as_dict(), 'timeout_ms': 120000 if chk.tier == 'thorough' else 30000, 'weight': sh.n * sh.H})
+                      'shape': sh.as_dict(), 'timeout_ms': 300000 if chk.tier == 'thorough' else 30000, 'weight': sh.n * sh.H})
     for sh in p02.shapes('quick', 'begin_chips_pushing'):
         tasks.append({'module': M, 'fn': 'shared_task', 'shared_module': 'props.c02', 'shared_fn': 'vc_task',
                       'name': f'begin_chips_pushing/n{sh.n}b{sh.B}t{sh.T}', 'contract': 'begin_chips_pushing', 'shape': sh.as_dict(),
